@@ -867,3 +867,27 @@ SPECS["C05"]["theorems"] += [
 SPECS["C05"]["level_text"] += (' Run level: a whole Op history (whose backfill tokens are its own) and a whole HCOBS encoder run (no side condition) is '
     'ONE history of this vocabulary on the world whose handle table carries the tokens (op_run_is_wrun, enc_prefix_is_wrun, enc_run_is_wrun), so those '
     'worlds are Reachable exactly as C05 / C10 / C20 quantify.')
+
+# ---- track apigaps: the remaining public API of owning_iovec (Model/IovecApi.lean, op words of fam_iovec/api.rs)
+SPECS["C03"]["lean_modules"] += ["Woodpile.Props.C03A"]
+SPECS["C03"]["theorems"] += [
+    "Woodpile.Props.C03A.new_from_slices_abs",
+    "Woodpile.Props.C03A.from_iter_abs",
+    "Woodpile.Props.C03A.new_from_slices_arena_abs",
+    "Woodpile.Props.C03A.from_iter_then_run",
+    "Woodpile.Props.C03A.front_is_first_stable",
+    "Woodpile.Props.C03A.iter_is_stable_prefix",
+    "Woodpile.Props.C03A.flatten_into_appends",
+    "Woodpile.Props.C03A.stable_views_complete",
+    "Woodpile.Props.C03A.read_takes_stable_prefix",
+    "Woodpile.Props.C03A.sink_refines",
+    "Woodpile.Props.C03A.stable_consumer_calls",
+]
+SPECS["C03"]["level_text"] += (' Props/C03A (track apigaps): the public entry points outside that vocabulary are modelled one by one in '
+    'Model/IovecApi.lean and exercised by the iovec family (op words from_iter, from_iter_ref, new_from_slices_arena, front, iter, flatten_into, '
+    'stable, try_stable, sc_consume/sc_advance/sc_read/sc_pop, sink_copy/sink_borrow through dyn / &mut T, is_last, a_clone, s_default, bref_default, '
+    'new_default, c_reserve): FromIterator (both impls) and new_from_slices with an arena build an iovec that satisfies the invariant and abstracts to '
+    'the pipe holding the concatenation (every C03/C04 theorem continues from it: from_iter_then_run); front / IntoIterator / iovs / flatten / '
+    'flatten_into(dst) / StableIovec::{iovs, flatten, flatten_into} return the stable bytes in order with dst kept in front; Read as the crate writes it '
+    '(front + advance_slices) is readInto; ZeroCopySink is push_copy / push; consumer calls through a StableIovec or the Err side of stable_consumer '
+    'are the plain consumer calls. The harness oracle checks every new accessor against stable_prefix() and the shadow buffer.')
